@@ -180,7 +180,24 @@ impl<'a> ProgGen<'a> {
             2 => {
                 self.feature("type-level-conditional");
                 let other = if self.r.chance(1, 2) { H::Bool } else { H::Int };
-                if self.r.chance(1, 2) { H::If(hb(H::True), hb(base), hb(other)) } else { H::If(hb(H::Bin(Op::Lt, hb(H::lit(2)), hb(H::lit(1)))), hb(other), hb(base)) }
+                match self.r.below(3) {
+                    0 => H::If(hb(H::True), hb(base), hb(other)),
+                    1 => H::If(hb(H::Bin(Op::Lt, hb(H::lit(2)), hb(H::lit(1)))), hb(other), hb(base)),
+                    _ => {
+                        // a computed condition on small literals, boundary-equal operands included
+                        let (x, y) = (self.r.below(4) as i64, self.r.below(4) as i64);
+                        let op = [Op::Lt, Op::Le, Op::Eq, Op::Gt, Op::Ge][self.r.usize(5)];
+                        let truth = match op {
+                            Op::Lt => x < y,
+                            Op::Le => x <= y,
+                            Op::Eq => x == y,
+                            Op::Gt => x > y,
+                            _ => x >= y,
+                        };
+                        let cond = H::Bin(op, hb(H::lit(x)), hb(H::lit(y)));
+                        if truth { H::If(hb(cond), hb(base), hb(other)) } else { H::If(hb(cond), hb(other), hb(base)) }
+                    }
+                }
             }
             3 => {
                 self.feature("type-level-definition");
@@ -438,7 +455,70 @@ impl<'a> ProgGen<'a> {
         Some(hb(self.ty_h(t)))
     }
 
+    // A group whose body is typed through a chain of the group's own aliases:
+    //   v : ta = <value>; ta : type = tb; tb : type = <type>; [other definitions]; v
+    // so that the type of the body mentions the group's variables (the group-type reconstruction
+    // of the checker has to substitute the definitions into it).
+    fn alias_typed_group(&mut self, t: &GT, d: usize) -> H {
+        self.feature("body-typed-by-group-alias-chain");
+        let chain = 1 + self.r.usize(3);
+        let v = self.fresh_name("aliased");
+        self.ctx.push(Entry { name: v.clone(), ty: t.clone(), alias_of: None, usable: false, recursive_fn: false });
+        let mut alias_names = vec![];
+        for _ in 0..chain {
+            let n = self.fresh_name("t");
+            self.ctx.push(Entry { name: n.clone(), ty: GT::Type, alias_of: Some(t.clone()), usable: false, recursive_fn: false });
+            alias_names.push(n);
+        }
+        // optional extra definition after the chain; its name stays reserved until the group is complete
+        let extra = if self.r.chance(1, 2) {
+            let n = self.fresh_name("");
+            let ty = self.random_type(1);
+            self.ctx.push(Entry { name: n.clone(), ty: ty.clone(), alias_of: None, usable: false, recursive_fn: false });
+            let ann = self.annotation(&ty);
+            let def = self.term(&ty, d.min(2));
+            Some((n, ty, ann, def))
+        } else {
+            None
+        };
+        let value = self.leaf(t);
+        let concrete = self.ty_h(t);
+        let mut defs: Vec<(String, Option<Box<H>>, H)> = vec![(v.clone(), Some(hb(H::Var(alias_names[0].clone()))), value)];
+        // The definition-order rule lets a computed definition (an alias that is just another
+        // alias is one) mention only earlier definitions or definitions that are values. So either
+        // a forward chain of length two (t = u; u = <type>), or the chain written backwards.
+        let concrete_is_value = matches!(concrete, H::Int | H::Bool | H::Type | H::Pi(..));
+        if chain == 2 && concrete_is_value && self.r.chance(1, 2) {
+            defs.push((alias_names[0].clone(), Some(hb(H::Type)), H::Var(alias_names[1].clone())));
+            defs.push((alias_names[1].clone(), Some(hb(H::Type)), concrete.clone()));
+        } else {
+            for i in (0..chain).rev() {
+                let def = if i + 1 < chain { H::Var(alias_names[i + 1].clone()) } else { concrete.clone() };
+                defs.push((alias_names[i].clone(), Some(hb(H::Type)), def));
+            }
+        }
+        let extra_reserved = extra.is_some();
+        if let Some((n, _, ann, def)) = extra {
+            defs.push((n, ann, def));
+        }
+        for _ in 0..=chain {
+            self.ctx.pop();
+        }
+        if extra_reserved {
+            self.ctx.pop();
+        }
+        let mut h = H::Var(v);
+        for (nm, ann, def) in defs.into_iter().rev() {
+            h = H::Let(nm, ann, hb(def), hb(h));
+        }
+        h
+    }
+
     pub fn group(&mut self, t: &GT, d: usize) -> H {
+        let inhabited = !matches!(t, GT::TVar(_)) || self.candidates(t).iter().any(|c| c.1.is_empty());
+        if self.cfg.type_level && self.cfg.mode == Mode::Explicit && !matches!(t, GT::Type | GT::Forall(..)) && inhabited && self.r.chance(1, 8) {
+            return self.alias_typed_group(t, d);
+        }
         self.feature("definition-group");
         #[derive(Clone)]
         enum Kind {
